@@ -76,6 +76,18 @@ theorem match_refuses_conflict {α : Type} (src : Vol α) (tgt : Geom) (tol : Ra
       have : (src.geom.cs != tgt.cs) = true := by simpa using hcs
       rw [if_pos this]
 
+/-- **Only reachable geometries are ever returned**: the geometry of whatever `match_geometry`
+returns is obtained from the source's by `permute_spatial_axes` / `pad` / slice-indexing steps — so
+(with `match_sound`) a target is matched only if it equals, within the tolerance, a geometry
+reachable from the source by permutation, flips, integer-stride cropping and padding; any other
+target (sub-voxel shift, non-integer scale, rotation beyond the tolerance) is refused. -/
+theorem match_only_reachable {α : Type} (src : Vol α) (tgt : Geom) (tol : Rat) (c : α) (r : Vol α)
+    (h : matchGeometry src tgt tol c = .ok r) :
+    Chain src.geom r.geom ∧ NormalForm src.geom r.geom ∧ geometryEqual r.geom tgt (some tol) = .ok true := by
+  have hc := matchGeometry_chain src tgt tol c r h
+  obtain ⟨_, _, _, _, _, _, _, _, _, _, hge⟩ := matchGeometry_ok src tgt tol c r h
+  exact ⟨hc, hc.normalForm, hge⟩
+
 /-! ## Clause 2b: when `match_geometry` succeeds (completeness) -/
 
 /-- **Per axis, in full generality.**  Let the target origin sit on voxel `s` of a (permuted) source
@@ -135,7 +147,7 @@ theorem match_complete_chain {α : Type} (src : Vol α) (g tgt : Geom) (tol : Ra
 target's geometry whose voxels are the source's wherever a source voxel sits at the same position and
 the padding value elsewhere. -/
 theorem match_reachable_spec {α : Type} (src : Vol α) (tgt : Geom) (tol : Rat) (c : α)
-    (hwf : WF src.geom) (hdet : src.geom.aff.det ≠ 0) (hshape : ∀ i, 1 ≤ tgt.shape i) (h0 : 0 < tol) (h1 : tol ≤ 1)
+    (hwf : WF src.geom) (hshape : ∀ i, 1 ≤ tgt.shape i) (h0 : 0 < tol) (h1 : tol ≤ 1)
     (hr : Reachable src.geom tgt) :
     ∃ r, matchGeometry src tgt tol c = .ok r ∧ (∀ i, r.geom.col i = tgt.col i) ∧ r.geom.pos = tgt.pos ∧
       ∀ k, InShape tgt.shape k →
@@ -146,7 +158,7 @@ theorem match_reachable_spec {α : Type} (src : Vol α) (tgt : Geom) (tol : Rat)
     intro k; simp only [Geom.toRef, hcol, hpos]
   refine ⟨r, hr1, hcol, hpos, fun k hk => ?_⟩
   have hk' : InShape r.geom.shape k := fun a => by rw [hsh a]; exact hk a
-  have := (match_sound src tgt tol c r hdet hr1).2 k hk'
+  have := (match_sound src tgt tol c r hwf.det_ne_zero hr1).2 k hk'
   simpa only [href] using this
 
 /-! ## Clause 3: index mapping between two volumes -/
